@@ -29,7 +29,7 @@ Graphs3 ==
        roots |-> {[site |-> "param", ctx |-> "direct", to |-> r, ty |-> Node(r)] : r \in rs}]
       : d \in [N3 -> SUBSET N3], rs \in (SUBSET N3) \ {{}} }
 
-\* base shapes (acyclic) with ONE edge realised through each of the 21 contexts and each root site/ctx
+\* base shapes (acyclic) with ONE edge realised through each of the 22 contexts and each root site/ctx
 Chain   == [A |-> {"B"}, B |-> {"C"}, C |-> {}]
 Diamond == [A |-> {"B", "C"}, B |-> {"C"}, C |-> {}]
 Fan     == [A |-> {"B", "C"}, B |-> {}, C |-> {}]
